@@ -55,6 +55,10 @@ def gen_prop_program(seed, k, mode="interp", **opts):
     node_level = opts.pop("node_level", True)
     model_level = opts.pop("model_level", True)
     crossed_p = opts.pop("crossed_p", 0.0)
+    if mode != "interp":
+        # world assumptions (Proposition(world=), And(..., world=), add_knowledge(world=)) are data, not part of an
+        # interpretation: only in the streams whose data is arbitrary
+        opts.setdefault("worlds", True)
     kb = prop.gen_kb(rng, downward=downward, **opts)
     conn = [n["id"] for n in kb["nodes"] if n["kind"] != "atom"]
     ar = {n["id"]: len(n.get("ops", [])) for n in kb["nodes"]}
